@@ -21,6 +21,7 @@ Fixpoint run_if (b : bool) (m : ifmode) (sk : list ev) : list string :=
           | Else => run_if b (SkipToEnd 0) r
           | IfE => run_if b Exec r
           | Call g => g :: run_if b Exec r
+          | Ret => []                      (* early return *)
           | _ => run_if b Exec r
           end
       | SkipToElse d =>
